@@ -17,7 +17,9 @@ RULE = ('a live bot (Owner + Misc loaded, production paths) receives PRIVMSG com
         'and at top level: the sticky attributes each command inherits and the kind/target of the final message are diffed too.  Histories: `disable [plugin] cmd` / `enable [plugin] cmd` sent by the owner (and by an ordinary user, who '
         'must be refused) interleaved with command lines of an ordinary user over plugins with overlapping commands; after every '
         'operation the reply, Commands._disabled.d and supybot.commands.disabled are diffed against the model, every call is diffed, '
-        'and directly: a command runs only if the operations the bot reported as succeeded left it enabled, and a refused operation '
+        'with restarts in between (registry value written out and read back, fresh DisabledCommands built from it as at start-up; the static '
+        '`disabled` settings of the other streams also go through that start-up path, with plugin names in several capitalisations); '
+        'and directly: a command runs only if the operations the bot reported as succeeded left it enabled (restarts included), and a refused operation '
         'changes nothing.  non-trivial = at least one bracket, a dispatch conflict or a history')
 TRUSTED = ['str.lower() is modelled for ASCII only (generated command tokens are ASCII); `L >= maxL` in findCallbacksForArgs is modelled '
            'as a length comparison (both are prefixes of the same list, as the source comment says)',
@@ -234,6 +236,15 @@ def plugin_table(S):
     return tab
 
 
+def restart_disabled(S):
+    """what a restart does to the disabled-commands table: supybot.commands.disabled is written out (str) and read back
+    (set) as the registry does on flush/load, and callbacks builds a fresh DisabledCommands() from it at import"""
+    conf, callbacks = S['conf'], S['callbacks']
+    v = conf.supybot.commands.disabled
+    v.set(str(v))
+    callbacks.Commands._disabled = callbacks.DisabledCommands()
+
+
 def apply_settings(S, st):
     conf, callbacks = S['conf'], S['callbacks']
     callbacks.Commands._disabled.d.clear()
@@ -241,8 +252,9 @@ def apply_settings(S, st):
         callbacks.Commands._disabled.everywhere.clear()
     conf.supybot.commands.disabled().clear()
     for cmd, plug in st.get('disabled', []):
-        # what Owner.disable does (plugins/Owner/plugin.py disable): plugin._disabled.add(command[, plugin.name()])
-        callbacks.Commands._disabled.add(cmd, plug)
+        # an entry of supybot.commands.disabled in the configuration file ('command' or 'Plugin.command') ...
+        conf.supybot.commands.disabled().add(cmd if plug is None else '%s.%s' % (plug, cmd))
+    restart_disabled(S)      # ... read when the bot starts: DisabledCommands.__init__
     dp = conf.supybot.commands.defaultPlugins
     for k in list(dp._children.keys()):
         if k != 'importantPlugins' and k not in S['base_defaults']:
@@ -577,6 +589,8 @@ def snapshot(S):
 def step_line(st):
     if st['op'] == 'call':
         return st['line']
+    if st['op'] == 'restart':
+        return '<restart>'
     return ' '.join([st['op']] + ([st['plugin']] if st.get('plugin') else []) + [st['cmd']])
 
 
@@ -606,6 +620,11 @@ def run_history(ctx, S, inp, kind, with_model=True):
             wsteps.append([2, toks])
             if any(isinstance(t, list) for t in toks):
                 raise ValueError('history call lines must be flat')
+        elif st['op'] == 'restart':
+            restart_disabled(S)
+            prev = snapshot(S)
+            obs.append(['op', True, prev[0], prev[1]])
+            wsteps.append([3])
         else:
             by_owner = st.get('by', 'owner') == 'owner'
             ilog, iout = impl_run(S, step_line(st), OWNER if by_owner else SENDER)
@@ -769,7 +788,8 @@ def gen_settings(rng, plugins):
         st['disabled'] = []
         for _ in range(rng.randint(1, 2)):
             c = rng.choice(allc)
-            st['disabled'].append([rng.choice([c, c.upper(), c[0] + '-' + c[1:]]), rng.choice([None] + [p['name'] for p in plugins])])
+            pn = rng.choice([None] + [p['name'] for p in plugins])
+            st['disabled'].append([rng.choice([c, c.upper(), c[0] + '-' + c[1:]]), pn if pn is None else rng.choice([pn, pn, pn.lower(), pn.upper()])])
     if rng.random() < 0.3:
         st['defaults'] = [[rng.choice(allc), rng.choice([p['name'] for p in plugins] + ['Nosuch', 'misc'])]]
     if rng.random() < 0.3:
@@ -840,7 +860,7 @@ CORPUS = [
      ['a [c] z', '[s]', 'a [[s]] y']),
     ({'plugins': [{'name': 'Al', 'cmds': [['a', 'reply'], ['dup', 'reply']]}, {'name': 'Be', 'cmds': [['dup', 'reply'], ['b', 'reply']]},
                   {'name': 'Ga', 'cmds': [['dup', 'echo']]}],
-      'settings': {'defaults': [['dup', 'Be']], 'disabled': [['a', None], ['b', 'Be']]}},
+      'settings': {'defaults': [['dup', 'Be']], 'disabled': [['a', None], ['b', 'be']]}},
      ['dup 1', 'al dup 1', 'ga dup 1', 'a', 'al a', 'b', 'be b', 'a [dup 1]']),
     ({'plugins': [{'name': 'Al', 'cmds': [['dup', 'reply']]}, {'name': 'Be', 'cmds': [['dup', 'reply']]}, {'name': 'Ga', 'cmds': [['dup', 'echo']]}],
       'settings': {'important': ['Ga']}}, ['dup 1']),
@@ -866,7 +886,9 @@ def _ops(*xs):
     out = []
     for x in xs:
         w = x.split()
-        if w[0] in ('disable', 'enable', 'udisable', 'uenable'):
+        if x == 'restart':
+            out.append({'op': 'restart'})
+        elif w[0] in ('disable', 'enable', 'udisable', 'uenable'):
             st = {'op': w[0].lstrip('u') if w[0][0] == 'u' else w[0], 'cmd': w[-1]}
             if len(w) == 3:
                 st['plugin'] = w[1]
@@ -886,6 +908,12 @@ HCORPUS = [
     {'plugins': _P2, 'steps': _ops('udisable a', 'al a', 'disable a', 'uenable a', 'al a', 'disable enable', 'disable identify', 'disable Al zz', 'disable zz', 'enable zz')},
     {'plugins': _P2, 'steps': _ops('disable D_UP', 'dup', 'al dup', 'enable dup', 'dup 1', 'disable al DUP', 'al dup', 'enable AL d-up', 'al dup 2')},
 ]
+HCORPUS += [
+    # per-plugin disable (class name and other capitalisations), restart, the command must still be disabled, qualified and bare
+    {'plugins': _P2, 'steps': _ops('disable Al dup', 'al dup', 'dup', 'restart', 'al dup 1', 'dup 1', 'AL DUP', 'enable Al dup', 'al dup 2', 'restart', 'dup 3')},
+    {'plugins': _P2, 'steps': _ops('disable al a', 'restart', 'al a', 'be a 1', 'a 2', 'disable BE a', 'restart', 'a 3', 'be a', 'enable be a', 'restart', 'a 4')},
+    {'plugins': _P2, 'steps': _ops('disable a', 'disable Be b', 'restart', 'a', 'al a', 'b 1', 'enable a', 'restart', 'al a 1', 'be b', 'restart', 'restart', 'b')},
+]
 # witnesses of the repaired defect C14.F24 (fixed: they run first on every check)
 W_MIXED = {'plugins': _P2, 'steps': _ops('disable Al a', 'enable a', 'al a 1')}
 W_MIXED2 = {'plugins': _P2, 'steps': _ops('disable Al a', 'disable a', 'enable a', 'al a 1')}
@@ -901,7 +929,9 @@ def gen_history(rng):
         r = rng.random()
         c = rng.choice(pool) if rng.random() < 0.9 else rng.choice(['enable', 'identify', 'zz'] + HC)
         pn = rng.choice(names)
-        if r < 0.4:
+        if r < 0.08:
+            steps.append({'op': 'restart'})
+        elif r < 0.4:
             line = ([rng.choice([pn, pn.lower()])] if rng.random() < 0.6 else []) + [rng.choice([c, c, c.upper()])] + rng.sample(['1', 'x'], rng.randint(0, 1))
             steps.append({'op': 'call', 'line': ' '.join(line)})
         else:
